@@ -15,6 +15,12 @@ import (
 type fragGen struct {
 	r      *lib.Rand
 	locals []string
+	// per-program switches, so that a good share of the programs lies inside the PROVED fragments
+	// F0/F1/F2 of coq/CC (fragclass.go), the rest only inside the tied one:
+	noGlobals bool // no reads of undefined globals
+	strMode   int  // 0: no strings; 1: numeral strings anywhere (arithmetic coerces them);
+	// 2: strings only as whole right-hand sides / return values / under not
+	tainted map[string]bool // strMode 2: names that received a string (kept out of arithmetic)
 }
 
 func (g *fragGen) num() luagen.Expr {
@@ -32,10 +38,14 @@ func (g *fragGen) num() luagen.Expr {
 	}
 }
 
-func (g *fragGen) leaf() luagen.Expr {
+func (g *fragGen) leaf(inArith bool) luagen.Expr {
 	switch k := g.r.Intn(100); {
 	case k < 45 && len(g.locals) > 0:
-		return &luagen.Var{Name: g.locals[g.r.Intn(len(g.locals))]}
+		x := g.locals[g.r.Intn(len(g.locals))]
+		if g.strMode == 2 && inArith && g.tainted[x] {
+			return g.num()
+		}
+		return &luagen.Var{Name: x}
 	case k < 85:
 		return g.num()
 	case k < 88:
@@ -45,47 +55,118 @@ func (g *fragGen) leaf() luagen.Expr {
 	case k < 93:
 		return &luagen.False{}
 	case k < 96:
+		if g.noGlobals {
+			return g.num()
+		}
 		return &luagen.Var{Name: fmt.Sprintf("G%d", g.r.Intn(2))} // an undefined global: nil
 	default:
+		if g.strMode != 1 {
+			return g.num()
+		}
 		return &luagen.Str{V: []byte(fmt.Sprint(g.r.Intn(30)))} // a numeral: arithmetic coerces it
 	}
 }
 
-func (g *fragGen) expr(depth int) luagen.Expr {
+// a string-valued expression used as a whole right-hand side / return value (strMode 2)
+func (g *fragGen) strExpr() luagen.Expr {
+	s := &luagen.Str{V: []byte(fmt.Sprint(g.r.Intn(30)))}
+	if g.r.Chance(30) {
+		s = &luagen.Str{V: []byte([]string{"x", "yz", ""}[g.r.Intn(3)])}
+	}
+	switch k := g.r.Intn(10); {
+	case k < 5:
+		return s
+	case k < 7:
+		return &luagen.Un{Op: "not", A: s}
+	case k < 8:
+		return &luagen.Paren{E: s}
+	default:
+		var ts []string
+		for _, x := range g.locals {
+			if g.tainted[x] {
+				ts = append(ts, x)
+			}
+		}
+		if len(ts) == 0 {
+			return s
+		}
+		return &luagen.Var{Name: ts[g.r.Intn(len(ts))]}
+	}
+}
+
+func (g *fragGen) expr(depth int, inArith bool) luagen.Expr {
 	if depth <= 0 || g.r.Chance(30) {
-		return g.leaf()
+		return g.leaf(inArith)
 	}
 	switch k := g.r.Intn(100); {
 	case k < 62:
 		ops := []string{"+", "-", "*", "/", "+", "-", "*"}
-		return &luagen.Bin{Op: ops[g.r.Intn(len(ops))], A: g.expr(depth - 1), B: g.expr(depth - 1)}
+		return &luagen.Bin{Op: ops[g.r.Intn(len(ops))], A: g.expr(depth-1, true), B: g.expr(depth-1, true)}
 	case k < 68: // % and ^ on small integers: exact in both models
 		if g.r.Bool() {
-			return &luagen.Bin{Op: "%", A: g.expr(depth - 1), B: &luagen.Num{V: float64(g.r.Range(1, 9))}}
+			return &luagen.Bin{Op: "%", A: g.expr(depth-1, true), B: &luagen.Num{V: float64(g.r.Range(1, 9))}}
 		}
 		return &luagen.Bin{Op: "^", A: &luagen.Num{V: float64(g.r.Intn(6))}, B: &luagen.Num{V: float64(g.r.Intn(4))}}
 	case k < 80:
-		return &luagen.Un{Op: "-", A: g.expr(depth - 1)}
+		return &luagen.Un{Op: "-", A: g.expr(depth-1, true)}
 	case k < 86:
-		return &luagen.Un{Op: "not", A: g.expr(depth - 1)}
+		return &luagen.Un{Op: "not", A: g.expr(depth-1, false)}
 	default:
-		return &luagen.Paren{E: g.expr(depth - 1)}
+		return &luagen.Paren{E: g.expr(depth-1, inArith)}
 	}
 }
 
 func (g *fragGen) exprs(n int) []luagen.Expr {
 	es := make([]luagen.Expr, n)
 	for i := range es {
-		es[i] = g.expr(g.r.Intn(4))
+		if g.strMode == 2 && g.r.Chance(25) {
+			es[i] = g.strExpr()
+		} else {
+			es[i] = g.expr(g.r.Intn(4), false)
+		}
 	}
 	return es
+}
+
+// strMode 2: the targets that receive an expression that may be a string become tainted
+func (g *fragGen) taint(names []string, es []luagen.Expr) {
+	if g.strMode != 2 {
+		return
+	}
+	for j := 0; j < len(names) && j < len(es); j++ {
+		e := es[j]
+		for {
+			p, ok := e.(*luagen.Paren)
+			if !ok {
+				break
+			}
+			e = p.E
+		}
+		switch x := e.(type) {
+		case *luagen.Str:
+			g.tainted[names[j]] = true
+		case *luagen.Var:
+			if g.tainted[x.Name] {
+				g.tainted[names[j]] = true
+			}
+		}
+	}
 }
 
 var fragNames = []string{"a", "b", "c", "d", "e"}
 
 // FragmentProgram generates one program of the fragment.
 func FragmentProgram(r *lib.Rand) []luagen.Stmt {
-	g := &fragGen{r: r}
+	g := &fragGen{r: r, tainted: map[string]bool{}}
+	g.noGlobals = r.Chance(65)
+	switch k := r.Intn(10); {
+	case k < 4:
+		g.strMode = 0
+	case k < 7:
+		g.strMode = 1
+	default:
+		g.strMode = 2
+	}
 	var prog []luagen.Stmt
 	if r.Intn(12) == 0 { // more than 256 constants: later constants cannot be RK operands
 		prog = append(prog, &luagen.Local{Names: []string{"z"}, Es: []luagen.Expr{&luagen.Num{V: 1000}}})
@@ -111,22 +192,28 @@ func FragmentProgram(r *lib.Rand) []luagen.Stmt {
 			if r.Chance(20) {
 				ne = r.Intn(k + 2)
 			}
-			prog = append(prog, &luagen.Local{Names: names, Es: g.exprs(ne)})
+			es := g.exprs(ne)
+			prog = append(prog, &luagen.Local{Names: names, Es: es})
 			g.locals = append(g.locals, names...)
+			g.taint(names, es)
 		} else {
 			k := 1
 			if r.Chance(25) {
 				k = r.Range(2, 3)
 			}
 			lhs := make([]luagen.Expr, k)
+			tnames := make([]string, k)
 			for j := range lhs {
-				lhs[j] = &luagen.Var{Name: g.locals[r.Intn(len(g.locals))]}
+				tnames[j] = g.locals[r.Intn(len(g.locals))]
+				lhs[j] = &luagen.Var{Name: tnames[j]}
 			}
 			ne := k
 			if r.Chance(20) {
 				ne = r.Range(1, k+1)
 			}
-			prog = append(prog, &luagen.Assign{LHS: lhs, Es: g.exprs(ne)})
+			es := g.exprs(ne)
+			prog = append(prog, &luagen.Assign{LHS: lhs, Es: es})
+			g.taint(tnames, es)
 		}
 	}
 	if r.Chance(85) {
